@@ -14,13 +14,13 @@ echo "== 1. existing suite with the change"
 if cargo test --offline -q --lib --bins --test integration_test >/tmp/seeded_$NAME.suite.log 2>&1 && cargo test --offline -q --doc >>/tmp/seeded_$NAME.suite.log 2>&1; then suite=pass; else suite=FAIL; fi
 echo "   existing suite: $suite"
 echo "== 2. demo with the change (must fail)"
-if cargo test --offline -q --test "$DEMOT" >/tmp/seeded_$NAME.demo1.log 2>&1; then d1=pass; else d1=fail; fi
+if cargo test --offline -q ${DEMO_FEATURES:+--features "$DEMO_FEATURES"} --test "$DEMOT" >/tmp/seeded_$NAME.demo1.log 2>&1; then d1=pass; else d1=fail; fi
 echo "   demo with change: $d1"
 echo "== 3. demo without the change (must pass)"
 # (no git stash: the stash is shared between all worktrees of a repository)
 git diff -- src > /tmp/seeded_$NAME.src.diff
 git checkout -q -- src
-if cargo test --offline -q --test "$DEMOT" >/tmp/seeded_$NAME.demo0.log 2>&1; then d0=pass; else d0=fail; fi
+if cargo test --offline -q ${DEMO_FEATURES:+--features "$DEMO_FEATURES"} --test "$DEMOT" >/tmp/seeded_$NAME.demo0.log 2>&1; then d0=pass; else d0=fail; fi
 git apply /tmp/seeded_$NAME.src.diff
 echo "   demo without change: $d0"
 if [ "$suite" != pass ] || [ "$d1" != fail ] || [ "$d0" != pass ]; then echo "NOT CONFIRMED: $NAME"; exit 3; fi
